@@ -6,7 +6,8 @@
     * `_pslinux.wrap_exceptions`, `_is_zombie`,
     * the front end `psutil.Process.exe()` (guess from cmdline, memoisation) and
       `psutil.Process.name()` (extension rule),
-  over a world that says what the kernel exposes for one PID. Import-free.
+  over a world that says what the kernel exposes for one PID. Imports only Base.Bytes / Base.Dec (no
+  Mathlib, no other model).
 
   Strings. psutil works on `str` obtained by UTF-8 + surrogateescape decoding (PYTHONUTF8=1
   is pinned by ./check), a bijection between byte strings and the strings psutil sees.
@@ -182,8 +183,13 @@ inductive FsEnt
   deriving DecidableEq, Repr
 
 structure World where
-  /-- `/proc/<pid>` (and its `stat`) still exists -/
+  /-- `/proc/<pid>` still exists (`os.path.lexists(f"{procfs}/{pid}")`; the files below it can be opened) -/
   dirExists : Bool
+  /-- `/proc/<pid>/stat` exists (`os.path.exists(f"{procfs}/{pid}/stat")`). A vanishing process may keep its
+      directory a little longer than the files in it (psutil #2418): `dirExists ∧ ¬ statExists`. -/
+  statExists : Bool := dirExists
+  /-- `/proc/<pid>/stat` can be opened and read (otherwise `open` answers EACCES) -/
+  statReadable : Bool := statExists
   /-- state letter in `/proc/<pid>/stat` is `Z` -/
   zombie : Bool
   /-- the name between the parentheses of `/proc/<pid>/stat` -/
@@ -213,8 +219,14 @@ deriving instance DecidableEq for Except
 abbrev Raw (α : Type) := Except RawErr α
 abbrev Res (α : Type) := Except Exc α
 
-/-- `Process._is_zombie`: reads `stat`; `OSError` → False -/
-def isZombie (w : World) : Bool := w.dirExists && w.zombie
+/-- `os.path.exists(f"{procfs}/{pid}/stat")` -/
+def statThere (w : World) : Bool := w.dirExists && w.statExists
+
+/-- `bcat(f"{procfs}/{pid}/stat")` succeeds -/
+def statOk (w : World) : Bool := statThere w && w.statReadable
+
+/-- `Process._is_zombie`: reads `stat` with its own parser (state letter after the LAST `)`); `OSError` → False -/
+def isZombie (w : World) : Bool := statOk w && w.zombie
 
 /-- `wrap_exceptions` -/
 def wrap (w : World) : Raw α → Res α
@@ -225,7 +237,7 @@ def wrap (w : World) : Raw α → Res α
     if isZombie w then .error .zombieProcess else .error .noSuchProcess
   | .error (.os .enoent) =>
     if isZombie w then .error .zombieProcess
-    else if !w.dirExists then .error .noSuchProcess     -- `not os.path.exists(f"{procfs}/{pid}/stat")`
+    else if !statThere w then .error .noSuchProcess     -- `not os.path.exists(f"{procfs}/{pid}/stat")` (#2418)
     else .error .fileNotFound                           -- bare re-raise
 
 /-- opening+reading a file below `/proc/<pid>` -/
@@ -395,9 +407,15 @@ def basename (p : Bytes) : Bytes :=
   | some i => p.drop (i + 1)
   | none => p
 
+/-- opening and reading `/proc/<pid>/stat` (`_parse_stat_file`, under `wrap_exceptions`) -/
+def readStat (w : World) : Raw Unit :=
+  if !statThere w then .error (.os .enoent)
+  else if !w.statReadable then .error (.os .eacces)
+  else .ok ()
+
 /-- `_pslinux.Process.name()`: the name field of `stat` -/
 def procName (w : World) : Res Bytes :=
-  if w.dirExists then .ok w.comm else .error .noSuchProcess
+  wrap w (match readStat w with | .ok _ => .ok w.comm | .error e => .error e)
 
 def nameLen (cfg : Cfg) (n : Bytes) : Nat :=
   if cfg.nameTestOnBytes then n.length else (chars n).length
@@ -438,7 +456,7 @@ def username (w : World) : Res Bytes :=
 
 /-- `int(self._parse_stat_file()['ttynr'])` -/
 def procTty (w : World) : Res Nat :=
-  if w.dirExists then .ok w.tty else .error .noSuchProcess
+  wrap w (match readStat w with | .ok _ => .ok w.tty | .error e => .error e)
 
 /-- `_pslinux.Process.terminal()`: `tmap[tty_nr]`, `None` on KeyError -/
 def terminal (w : World) : Res (Option Bytes) :=
